@@ -148,6 +148,13 @@ def _reuse_scenario():
 
 
 SCENARIOS = [
+    # a callable annotated by the name of a class defined later, called between redefinitions of that class: when the class is
+    # decorated by @beartype the redefinition is noticed (caches cleared) and the callable follows the current class ...
+    {'mode': 'history', 'ops': [['fwd', 'Late', 'Late', False], ['define_bt', 'Late', 0], ['fwd', 'Late', 'Late', False],
+                                ['define_bt', 'Late', 1], ['fwd', 'Late', 'Late', False]]},
+    # ... when it is a plain class nothing notices (F52)
+    {'mode': 'history', 'ops': [['fwd', 'Late', 'Late', False], ['define', 'Late', 0], ['fwd', 'Late', 'Late', False],
+                                ['define', 'Late', 1], ['fwd', 'Late', 'Late', False]]},
     # F51: a class redefined under the same name, asked about through PEP 585 / 604 hints before and after
     {'mode': 'history', 'ops': [['define', 'Late', 0], ['th_cls', 'Late'], ['define', 'Late', 1], ['th_cls', 'Late']]},
     _reuse_scenario(),
@@ -273,7 +280,7 @@ def run(ctx):
                 ctx.report({'clause': 'history_crashed'}, {'case': case, 'observed': o}, 'a public-API history crashed the interpreter')
                 continue
             for i, (op, a, b) in enumerate(zip(case['ops'], o['history'], o['fresh'])):
-                if op[0] in ('gc', 'clear', 'define'):
+                if op[0] in ('gc', 'clear', 'define', 'define_bt'):
                     continue
                 if a != b:
                     # F14 is about wrappers of unhashable hints: one anywhere earlier in the history (its address may have been reused by
@@ -281,7 +288,9 @@ def run(ctx):
                     def mentions_unhashable(x):
                         return isinstance(x, list) and bool(x) and (x[0] == 'unhashable' or any(mentions_unhashable(y) for y in x))
                     unhashable = any(mentions_unhashable(q) for q in case['ops'][:i + 1])
-                    shape = {'clause': 'history_dependent_answer', 'op': op[0], 'unhashable_hint': unhashable}
+                    plain_redef = op[0] == 'fwd' and sum(1 for q in case['ops'][:i] if q[0] == 'define' and q[1] == op[1]) >= 2
+                    shape = {'clause': 'history_dependent_answer', 'op': op[0], 'unhashable_hint': unhashable,
+                             'after_plain_redefinition': plain_redef}
                     if ctx.report(shape, {'case': case, 'index': i, 'op': op, 'after_history': a, 'fresh': b},
                                   'an answer after a history differs from the answer of a pristine interpreter') == 'violation':
                         failures += 1
